@@ -385,6 +385,7 @@ pub fn check_case(c: &Case, obs: &mut Obs) -> Verdict {
     let lacks = |b: &[u8]| !b.is_empty() && !matches!(b.last(), Some(b'\n') | Some(b'\r'));
     obs.class_if(lacks(&c.old.0), "old lacks final newline");
     obs.class_if(lacks(&c.new.0), "new lacks final newline");
+    obs.class_if(c.old.0.iter().filter(|b| **b == b'\n').count() > 100 || c.new.0.iter().filter(|b| **b == b'\n').count() > 100, "more than 100 lines (IdentifyDistinct path)");
     match judge(c, &r) {
         Ok((hunks, markers)) => {
             obs.nontrivial = hunks >= 1;
@@ -417,6 +418,7 @@ fn strat(tier: Tier) -> BoxedStrategy<Case> {
     let radius = prop_oneof![3 => Just(0usize), 2 => Just(1usize), 2 => Just(2usize), 3 => Just(3usize), 1 => Just(4usize), 1 => Just(7usize), 1 => Just(50usize)];
     let texts = prop_oneof![
         6 => crate::gen::line_text_pair(tier.pick(40, 300), false),
+        1 => crate::gen::line_text_pair_sized(90, tier.pick(140, 300), false),
         3 => crate::gen::line_text_pair(tier.pick(40, 120), true),
         1 => crate::gen::text_pair(30, false),
     ];
